@@ -178,9 +178,9 @@ func (fv *FV) callFold(st *State, ins ssa.CallInstruction, v ssa.Value, callee *
 				keys["*"] = true
 			}
 		}
+		fv.bumpWM(st)
 		fv.havocKeys(st, keys, "fan-out "+why)
 		fv.frameCheckCallee(st, keys, "fan-out")
-		fv.bumpWM(st)
 		rs := fv.freshResults(st, sig, "fold")
 		fv.assumeValidResults(st, sig, rs)
 		fv.setResults(st, v, rs)
@@ -252,9 +252,9 @@ func (fv *FV) callFold(st *State, ins ssa.CallInstruction, v ssa.Value, callee *
 				keys[k] = true
 			}
 		}
+		fv.bumpWM(s)
 		fv.havocKeys(s, keys, fmt.Sprintf("fold %d closures", ord))
 		fv.frameCheckCallee(s, keys, "fan-out")
-		fv.bumpWM(s)
 	}
 
 	// 2. inductive step, explored on a side state
